@@ -118,7 +118,7 @@ CHECKS = {
              "asymptotes strictly enclose [alfa, beta] within bounds and move limit; one Newton pass of subsolv keeps x strictly inside (alfa, beta) and all multipliers/slacks positive (step-length rule + halving), hence every iterate is in bounds "
              "and within the move limit; exit residual bound (partial). Float model vs recorded mmasub/subsolv calls of the real optimiser (arguments, returned solution, iterates at every callback); per-call inequality and KKT oracles.",
         ref="§5 C10", technique="Lean 4 proof (field algebra, interior-point invariants) + Float-model correspondence on recorded calls + per-call oracle; one OPEN known finding",
-        note=NOTE_COMMON + "PARTIAL: convergence of MMA on convex problems and 'constraints end up satisfied' are asymptotic claims that are observed, not proved; subsolv_exit_kkt_partial assumes the Newton caps are not hit; m = 0 is outside the property. OPEN FINDING mma-subsolv-nan-wide-ranges: for variable ranges beyond ~1e4 the floating-point Newton iteration of the real sub-problem solver rounds x onto its bound and returns NaN (the interior invariant is a theorem of exact arithmetic); that input class is kept out of the correspondence stream."),
+        note=NOTE_COMMON + "PARTIAL: convergence of MMA on convex problems and 'constraints end up satisfied' are asymptotic claims that are observed, not proved; subsolv_exit_kkt_partial / subsolv_exit_kkt_blocks (stationarity and constraint rows of the sub-problem KKT system <= 9*epsimin, complementarity products in (0, 19*epsimin] at the returned point) assume the Newton caps are not hit; m = 0 is outside the property. OPEN FINDING mma-subsolv-nan-wide-ranges: for variable ranges beyond ~1e4 the floating-point Newton iteration of the real sub-problem solver rounds x onto its bound and returns NaN (the interior invariant is a theorem of exact arithmetic); that input class is kept out of the correspondence stream."),
     "C17": dict(
         text="Lean theorems over any ordered field: the clipped OC update stays in [xmin, xmax] and moves at most `move`; by induction over ALL iterations of minimize_oc every design at every response and the final states are in bounds and chained by the move limit; "
              "volume is non-increasing and (sqrt contract) explicitly Lipschitz in the multiplier, so the returned design has volume within C*l1l2tol of the target when it is reachable; the bisection keeps vol(l1) > maxvol >= vol(l2) and exits with l2 - l1 <= tolerance; write-back slices concatenate to the design; the bisection terminates after log2((l2-l1)/tol) passes; the update of the separable objective is independent of the current design and optimal in the move-limited box when the volume is met. Float model vs the real loop at every network response; "
